@@ -170,3 +170,9 @@ Theorem C11_conc_oracle_sound : forall calls stay leaver late,
   (exists w, conc_oracle calls stay leaver late w = true) <-> conc_spec calls stay leaver late.
 Proof. exact conc_oracle_sound. Qed.
 Print Assumptions C11_conc_oracle_sound.
+
+(* rushed runs (calls back to back / all at once, consumers reading only after Close returned):
+   the oracle says exactly "no consumer received anything". *)
+Theorem C11_rush_oracle_sound : forall late, rush_oracle late = true <-> rush_spec late.
+Proof. exact rush_oracle_sound. Qed.
+Print Assumptions C11_rush_oracle_sound.
